@@ -54,6 +54,23 @@ Theorem C15_budget_agrees_with_trivia :
 Proof. exact kip_agrees_with_trivia. Qed.
 Print Assumptions C15_budget_agrees_with_trivia.
 
+(* The two sites of the SOURCE agree on the lexical structure (facts regenerated on every run
+   from parser.rs validate_parser_budget and from json.rs skip_ws_and_comments / string /
+   character and common.rs trivia1): the same comment opener, the same set of characters that
+   end a line comment, the same quote and escape, the same whitespace predicate in both trivia
+   skippers.  C15_budget_bounds_nesting / _agrees_with_trivia above run the scanner with ITS
+   terminators and the lexical reading with the PARSER's; this is what joins them. *)
+Theorem C15_trivia_sites_agree :
+  budget_comment_terms = trivia_comment_terms /\
+  budget_comment_open = trivia_comment_open /\ trivia_comment_open = [c_slash; c_slash] /\
+  trivia_term_consumed = true /\ trivia_eof_ends_comment = true /\
+  budget_quote = string_quote /\ string_quote = c_quote /\
+  budget_escape = string_escape /\ string_escape = c_bslash /\
+  trivia1_ws_pred = trivia_ws_pred /\ trivia1_comment_open = trivia_comment_open /\
+  trivia_ws_pred = rust_is_whitespace.
+Proof. exact trivia_sites_agree. Qed.
+Print Assumptions C15_trivia_sites_agree.
+
 (* ---------- 2. the call graph (finite: kg_nfns functions, the call positions kg_edges, both
    regenerated from the parser source) ---------- *)
 
@@ -90,26 +107,28 @@ Print Assumptions C15_recursion_depth_bounded.
 
 (* ---------- 3. the reference tokenizer ---------- *)
 
-(* Whitespace and newline-terminated line comments inserted where no string, comment or word is
-   cut do not change the tokens. *)
+(* (for any set [terms] of characters that end a line comment; the runner uses the generated
+   trivia_comment_terms)
+   Whitespace and terminated line comments inserted where no string, comment or word is cut do
+   not change the tokens. *)
 Theorem C15_insert_trivia_preserves_tokens :
-  forall a t b out acc,
-    run LCode [] a = (out, LCode, acc) -> trivia t ->
+  forall terms a t b out acc,
+    run terms LCode [] a = (out, LCode, acc) -> trivia terms t ->
     acc = [] \/ starts_word b = false ->
-    tokens (a ++ t ++ b) = tokens (a ++ b).
+    tokens terms (a ++ t ++ b) = tokens terms (a ++ b).
 Proof. exact insert_trivia_preserves_tokens. Qed.
 Print Assumptions C15_insert_trivia_preserves_tokens.
 
 (* Flipping the case of any letters of words (never inside strings or comments) changes the
    tokens at most in the case of words. *)
 Theorem C15_flip_case_preserves_tokens :
-  forall mask cs, tokens_ci (flip_words LCode [] mask cs) = tokens_ci cs.
+  forall terms mask cs, tokens_ci terms (flip_words terms LCode [] mask cs) = tokens_ci terms cs.
 Proof. exact flip_case_preserves_tokens. Qed.
 Print Assumptions C15_flip_case_preserves_tokens.
 
 (* The executable comparison applied to the harness's (base, variant) pairs decides exactly that. *)
 Theorem C15_lex_equiv_sound :
-  forall a b, lex_equiv a b = true <-> tokens_ci a = tokens_ci b.
+  forall terms a b, lex_equiv terms a b = true <-> tokens_ci terms a = tokens_ci terms b.
 Proof. exact lex_equiv_spec. Qed.
 Print Assumptions C15_lex_equiv_sound.
 
@@ -136,14 +155,16 @@ Example C15_graph_nonvacuous :
 Proof. vm_compute. repeat split; try reflexivity. apply Nat.lt_0_succ || auto with arith. Qed.
 
 Example C15_lex_nonvacuous :
+  let lex_equiv := lex_equiv trivia_comment_terms in let trivia := trivia trivia_comment_terms in
   lex_equiv (codes "FIND(?x) WHERE { ?x {type: ""a // b""} }")
             (codes "find // c ) "" {" ++ nl ++ codes "( ?x )wHeRe{?x{type :""a // b""}}") = true /\
   lex_equiv (codes "ORDER BY") (codes "ORDERBY") = false /\
   lex_equiv (codes "{a: ""x""}") (codes "{a: ""X""}") = false /\
   trivia (codes "  // [ "" " ++ nl).
 Proof.
-  split; [vm_compute; reflexivity|]. split; [vm_compute; reflexivity|]. split; [vm_compute; reflexivity|].
+  cbv zeta. split; [vm_compute; reflexivity|]. split; [vm_compute; reflexivity|]. split; [vm_compute; reflexivity|].
   change (codes "  // [ "" " ++ nl) with ([32%N] ++ [32%N] ++ (c_slash :: c_slash :: codes " [ "" " ++ [c_nl])).
   apply tr_app; [apply tr_ws; reflexivity|]. apply tr_app; [apply tr_ws; reflexivity|].
-  apply tr_comment. vm_compute. intuition discriminate.
+  apply tr_comment; [|reflexivity]. intros x Hx. vm_compute in Hx.
+  repeat (destruct Hx as [<-|Hx]; [reflexivity|]). contradiction.
 Qed.
